@@ -19,10 +19,29 @@ MUTATORS = {"set", "flags", "staging", "release", "cleanup", "cp", "revert", "li
 MAX_MINIMISE = 4
 
 
+_RUNDIR = [None]
+
+
 def rundir():
-    d = os.path.join(vlib.BUILD, "run", PID)
-    os.makedirs(d, exist_ok=True)
-    return d
+    """scratch directory of THIS run (driver output, model output, replay batches): unique per process, on the RAM
+    disk when there is one — the big driver output must neither depend on free space of the shared disk nor collide
+    with another run of this check; removed at the end (VERIF_C08_KEEP=1 keeps it and prints the path)"""
+    if _RUNDIR[0] is None:
+        import tempfile
+        base = "/dev/shm" if os.path.isdir("/dev/shm") and os.access("/dev/shm", os.W_OK) else os.path.join(vlib.BUILD, "run")
+        os.makedirs(base, exist_ok=True)
+        _RUNDIR[0] = tempfile.mkdtemp(prefix="verif-%s-" % PID, dir=base)
+    return _RUNDIR[0]
+
+
+def drop_rundir():
+    if _RUNDIR[0] and os.path.isdir(_RUNDIR[0]):
+        if os.environ.get("VERIF_C08_KEEP"):
+            vlib.log("C08: run files kept in " + _RUNDIR[0])
+        else:
+            import shutil
+            shutil.rmtree(_RUNDIR[0], ignore_errors=True)
+    _RUNDIR[0] = None
 
 
 def pipeline(exe, modelrun, env, args, tag):
@@ -179,7 +198,10 @@ def minimise(runner, ops, kind):
 def main(tier, replay):
     """never exits non-zero silently: an exception inside the check is printed and reported as a violation"""
     try:
-        return _main(tier, replay)
+        try:
+            return _main(tier, replay)
+        finally:
+            drop_rundir()
     except BaseException as ex:  # noqa: also KeyboardInterrupt / SystemExit from helpers
         import traceback
         tb = traceback.format_exc()
